@@ -190,8 +190,7 @@ def corpus_cases():
 
 
 def run(ctx):
-    if os.path.exists(os.path.join(vlib.VERIF, "coq", "Properties_C09.v")):
-        ctx.prove()
+    ctx.prove()
     okh, hs, hlog = vlib.build_harness(["h_store"])
     if not okh:
         ctx.broken.append("harness-build: " + hlog[-300:])
